@@ -379,11 +379,26 @@ impl<C: Config> Engine<C> {
             return Ok(true);
         };
 
+        #[cfg(qbice_verif)]
+        let verif_edges = if crate::verif::cycle_hook_installed() {
+            self.verif_computing_edges(callee)
+        } else {
+            Vec::new()
+        };
+
         let is_in_scc = self.check_cyclic(
             callee,
             &running_state,
             &query_caller.query_id(),
         );
+
+        #[cfg(qbice_verif)]
+        crate::verif::cycle_probe(&crate::verif::CycleProbe {
+            callee: *callee,
+            target: query_caller.query_id(),
+            edges: verif_edges,
+            found: is_in_scc,
+        });
 
         // mark the caller as being in scc
         if is_in_scc {
@@ -399,6 +414,45 @@ impl<C: Config> Engine<C> {
         notified.await;
 
         Ok(false)
+    }
+
+    /// (verification hook) The computing queries reachable from `from`
+    /// through the callees they have registered so far, each with those
+    /// callees: the part of the dynamic dependency graph that a cycle search
+    /// starting at `from` can see.
+    #[cfg(qbice_verif)]
+    fn verif_computing_edges(
+        &self,
+        from: &QueryID,
+    ) -> Vec<(QueryID, Vec<QueryID>)> {
+        let mut out = Vec::new();
+        let mut todo = vec![*from];
+        let mut seen = std::collections::HashSet::<QueryID>::new();
+        seen.insert(*from);
+
+        while let Some(id) = todo.pop() {
+            let Some(state) =
+                self.computation_graph.computing.try_get_query_computing(&id)
+            else {
+                continue;
+            };
+
+            let mut callees = Vec::new();
+            state.callee_info.callee_queries.iter_sync(|k, _| {
+                callees.push(*k);
+                true
+            });
+
+            for k in &callees {
+                if seen.insert(*k) {
+                    todo.push(*k);
+                }
+            }
+
+            out.push((id, callees));
+        }
+
+        out
     }
 
     /// Checks whether the computing queries reachable from `callee` (through
